@@ -23,29 +23,59 @@ func writes(i ...int) ExtInfo { return ExtInfo{Known: true, Writes: i} }
 // a pointer-like argument makes the affected obligation UNDECIDED.
 var externals = map[string]ExtInfo{
 	// pure, result fresh
-	"fmt.Sprintf":                         pure(),
-	"fmt.Errorf":                          pure(),
-	"strconv.Atoi":                        pure(),
-	"strconv.ParseInt":                    pure(),
-	"strconv.ParseFloat":                  pure(),
-	"strconv.FormatInt":                   pure(),
-	"strings.HasPrefix":                   pure(),
-	"strings.TrimSpace":                   pure(),
-	"strings.LastIndex":                   pure(),
-	"unicode.IsSpace":                     pure(),
-	"path/filepath.Join":                  pure(),
-	"time.Unix":                           pure(),
-	"time.Date":                           {Known: true, Aliases: []int{7}},
-	"time.ParseInLocation":                {Known: true, Aliases: []int{2}},
-	"time.LoadLocation":                   {Known: true, Note: "depends on the host's zone database (assumption)"},
-	"(time.Time).Unix":                    pure(),
-	"(time.Time).Before":                  pure(),
-	"(time.Time).Add":                     {Known: true, Aliases: []int{0}},
-	"(time.Time).Equal":                   pure(),
-	"(time.Time).In":                      {Known: true, Aliases: []int{0, 1}},
-	"(time.Time).Format":                  pure(),
-	"(time.Time).String":                  pure(),
-	"(*regexp.Regexp).FindStringSubmatch": {Known: true, MayNil: true, Note: "regexp methods are safe for concurrent use (documented)"},
+	"fmt.Sprintf":                                      pure(),
+	"fmt.Errorf":                                       pure(),
+	"strconv.Atoi":                                     pure(),
+	"strconv.ParseInt":                                 pure(),
+	"strconv.ParseFloat":                               pure(),
+	"strconv.FormatInt":                                pure(),
+	"strings.HasPrefix":                                pure(),
+	"strings.TrimSpace":                                pure(),
+	"strings.LastIndex":                                pure(),
+	"unicode.IsSpace":                                  pure(),
+	"path/filepath.Join":                               pure(),
+	"time.Unix":                                        pure(),
+	"time.Date":                                        {Known: true, Aliases: []int{7}},
+	"time.ParseInLocation":                             {Known: true, Aliases: []int{2}},
+	"time.LoadLocation":                                {Known: true, Note: "depends on the host's zone database (assumption)"},
+	"(time.Time).Unix":                                 pure(),
+	"(time.Time).Before":                               pure(),
+	"(time.Time).Add":                                  {Known: true, Aliases: []int{0}},
+	"(time.Time).Equal":                                pure(),
+	"(time.Time).In":                                   {Known: true, Aliases: []int{0, 1}},
+	"(time.Time).Format":                               pure(),
+	"(time.Time).String":                               pure(),
+	"(time.Time).Zone":                                 pure(),
+	"(time.Time).ZoneBounds":                           pure(),
+	"(time.Time).Location":                             {Known: true, Aliases: []int{0}},
+	"(time.Time).IsDST":                                pure(),
+	"(time.Time).IsZero":                               pure(),
+	"(time.Time).After":                                pure(),
+	"(time.Time).Compare":                              pure(),
+	"(time.Time).UnixNano":                             pure(),
+	"(time.Time).UnixMilli":                            pure(),
+	"(time.Time).UnixMicro":                            pure(),
+	"(time.Time).Year":                                 pure(),
+	"(time.Time).Month":                                pure(),
+	"(time.Time).Day":                                  pure(),
+	"(time.Time).Hour":                                 pure(),
+	"(time.Time).Minute":                               pure(),
+	"(time.Time).Second":                               pure(),
+	"(time.Time).Nanosecond":                           pure(),
+	"(time.Time).Weekday":                              pure(),
+	"(time.Time).YearDay":                              pure(),
+	"(time.Time).Date":                                 pure(),
+	"(time.Time).Clock":                                pure(),
+	"(time.Time).Sub":                                  pure(),
+	"(time.Time).AddDate":                              {Known: true, Aliases: []int{0}},
+	"(time.Time).Truncate":                             {Known: true, Aliases: []int{0}},
+	"(time.Time).UTC":                                  {Known: true, Aliases: []int{0}},
+	"(time.Duration).Seconds":                          pure(),
+	"(time.Duration).Minutes":                          pure(),
+	"(time.Duration).Hours":                            pure(),
+	"(time.Duration).Milliseconds":                     pure(),
+	"(time.Duration).String":                           pure(),
+	"(*regexp.Regexp).FindStringSubmatch":              {Known: true, MayNil: true, Note: "regexp methods are safe for concurrent use (documented)"},
 	"google.golang.org/protobuf/proto.HasExtension":    {Known: true, Note: "extension fields are lazily decoded under internal synchronisation"},
 	"google.golang.org/protobuf/proto.GetExtension":    {Known: true, Aliases: []int{0}, MayNil: true},
 	"encoding/json.Marshal":                            pure(),
